@@ -1,5 +1,171 @@
-(* placeholder, replaced below *)
-From Verif Require Import Css.Ser Css.RetokSpec.
-Theorem C20_placeholder : serialize [] = Ok [].
-Proof. reflexivity. Qed.
-Print Assumptions C20_placeholder.
+(* Properties/C20.v -- "Serialized CSS re-parses to the same component values".
+
+   Model: Css/Ser.v (port of /repo/css/parser/serialize.go).  Re-tokenisation:
+   Css/RetokSpec.v (CSS Syntax 3 tokenizer and block builder, specification
+   level; tied to /repo's Tokenize on every run by Check/C20.v).  Domain:
+   `wf_tokens` (Css/SerWf.v) = the token lists the tokenizer can return on a
+   source without parse errors (`C20_tokenize_wf`); Check/C20.v also evaluates
+   it on every token list /repo's Tokenize returned.  `norm` = the equivalence of the property text:
+   comments and positions ignored, consecutive whitespace tokens (they only
+   arise around a dropped comment) merged.
+
+   Only statements here; proofs are in Css/SerProofs.v, Css/RoundTripTok.v,
+   Css/RoundTripSep.v, Css/RoundTripList.v, Css/RoundTripBuild.v, Css/TokWfLex.v,
+   Css/TokWfBuild.v. *)
+From Verif Require Import Css.Ser Css.RetokSpec Css.SerWf Css.SerProofs Css.RoundTripTok Css.RoundTripSep
+  Css.RoundTripList Css.RoundTripBuild Css.TokWfLex Css.TokWfBuild.
+From Coq Require Import List NArith Bool.
+Import ListNotations.
+Open Scope N_scope.
+
+(* ------------------------------------------------------------------ the property *)
+
+(* The serializer never panics on a token list the tokenizer can return. *)
+Theorem C20_serialize_total : forall ts,
+  wf_tokens ts = true -> exists s, serialize ts = Ok s.
+Proof. exact serialize_total. Qed.
+Print Assumptions C20_serialize_total.
+
+(* Serializing then tokenizing gives back the same component values: token
+   types, unescaped values, numeric representation and integer flag, units,
+   hash id flag, unicode ranges, nesting.  For ALL well-formed lists (no bound
+   on length, nesting depth or code points). *)
+Theorem C20_roundtrip : forall ts s,
+  wf_tokens ts = true -> serialize ts = Ok s ->
+  norm (tokenize true s) = norm ts.
+Proof. exact roundtrip. Qed.
+Print Assumptions C20_roundtrip.
+
+(* The tokenizer only returns lists of the domain above: what it returns on a
+   source without parse errors is well formed (non-empty names without NUL,
+   number representations in the grammar, literal set, a backslash delimiter
+   only before a newline, url( only before a quoted string, ...). *)
+Theorem C20_tokenize_wf : forall (skip : bool) (src : list N),
+  error_free (tokenize skip src) = true -> wf_tokens (tokenize skip src) = true.
+Proof. exact tokenize_wf. Qed.
+Print Assumptions C20_tokenize_wf.
+
+(* The property as stated, over source texts: for every text (any code points,
+   either tokenizer mode) whose tokenisation has no parse-error token, the
+   serializer returns, and its output tokenizes back to the same values. *)
+Theorem C20_roundtrip_source : forall (skip : bool) (src : list N),
+  error_free (tokenize skip src) = true ->
+  exists s, serialize (tokenize skip src) = Ok s /\
+            norm (tokenize true s) = norm (tokenize skip src).
+Proof.
+  intros skip src He. pose proof (tokenize_wf skip src He) as Hw.
+  destruct (serialize_total _ Hw) as (s & Hs).
+  exists s. split; [exact Hs|]. exact (roundtrip _ _ Hw Hs).
+Qed.
+Print Assumptions C20_roundtrip_source.
+
+(* ------------------------------------------------------------------ "inserts separators wherever two adjacent tokens would otherwise fuse" *)
+
+(* For adjacent well-formed tokens t1 t2: what serializeTo writes after t1 --
+   the separator it chooses from the bad-pairs table (or the "u +" / backslash
+   rules), then t2, then any text k' that may follow t2 -- may follow t1, i.e.
+   leaves the re-tokenisation of t1 unchanged.  All token values, all pairs. *)
+Theorem C20_bad_pairs_complete : forall t1 t2 rest s2 k',
+  wf_tok t1 = true -> wf_tok t2 = true -> backslash_ok t1 (t2 :: rest) = true ->
+  ser_token t2 = Ok s2 -> follow_ok t2 k' = true ->
+  follow_ok t1 (separator (Some t1) t2 ++ s2 ++ k') = true.
+Proof. exact sep_ok. Qed.
+Print Assumptions C20_bad_pairs_complete.
+
+(* The flat-stream form of the round trip, with any closing context k. *)
+Theorem C20_roundtrip_flat : forall ts s (f : nat),
+  wf_tokens ts = true -> serialize ts = Ok s -> (length s < f)%nat ->
+  mergews (lex true f s) = mergews (fl ts).
+Proof.
+  intros ts s f Hw Hs Hf.
+  destruct (lex_ser (lsize ts) ts None [] [] s (le_n _) Hw I Hs lexes_nil (or_introl eq_refl))
+    as (out' & L & M).
+  rewrite app_nil_r in L, M. rewrite (lexes_lex s out' L f Hf). exact M.
+Qed.
+Print Assumptions C20_roundtrip_flat.
+
+(* ------------------------------------------------------------------ per-consumer round trips *)
+
+(* consume_ident (serialize_identifier v ++ k) = (v, k), for every non-empty v
+   and every k that does not continue a name *)
+Theorem C20_ident_roundtrip : forall v s k f,
+  serialize_identifier v = Ok s -> name_stop k = true -> (length v <= f)%nat ->
+  consume_name f (s ++ k) = (v, k) /\ starts_ident (s ++ k) = true.
+Proof. exact ident_roundtrip. Qed.
+Print Assumptions C20_ident_roundtrip.
+
+Theorem C20_name_roundtrip : forall v k f,
+  name_stop k = true -> (length v <= f)%nat ->
+  consume_name f (serialize_name v ++ k) = (v, k).
+Proof. exact name_roundtrip. Qed.
+Print Assumptions C20_name_roundtrip.
+
+Theorem C20_string_roundtrip : forall v k f,
+  (length v < f)%nat ->
+  consume_string f 34 (serialize_string_value v ++ 34 :: k) = (v, SClosed, k).
+Proof. exact string_roundtrip. Qed.
+Print Assumptions C20_string_roundtrip.
+
+Theorem C20_url_roundtrip : forall v k f,
+  no_nul v = true -> (length v < f)%nat ->
+  consume_url f (serialize_url v ++ 41 :: k) = UOk v k.
+Proof. exact url_roundtrip. Qed.
+Print Assumptions C20_url_roundtrip.
+
+Theorem C20_number_roundtrip : forall repr k,
+  number_repr repr = true -> num_stop k = true ->
+  consume_number (repr ++ k) = Some (repr, k).
+Proof. exact number_roundtrip. Qed.
+Print Assumptions C20_number_roundtrip.
+
+(* one tokenizer step on a serialized token: hash (both flag values),
+   dimension (incl. the scientific-notation disambiguation), unicode range *)
+Theorem C20_hash_id_roundtrip : forall skip p v s k,
+  serialize_identifier v = Ok s -> follow_ok (THash p v true) k = true ->
+  lex_step skip (35 :: s ++ k) = ([FTok (THash p0 v true)], k).
+Proof. exact lex_hash_id. Qed.
+Print Assumptions C20_hash_id_roundtrip.
+
+Theorem C20_hash_unrestricted_roundtrip : forall skip p v k,
+  name_val v = true -> hash_nonid v = true -> follow_ok (THash p v false) k = true ->
+  lex_step skip (35 :: serialize_name v ++ k) = ([FTok (THash p0 v false)], k).
+Proof. exact lex_hash_nonid. Qed.
+Print Assumptions C20_hash_unrestricted_roundtrip.
+
+Theorem C20_dimension_roundtrip : forall skip p repr i u s k,
+  number_repr repr = true -> name_val u = true ->
+  ser_token (TDimension p repr i u) = Ok s -> follow_ok (TDimension p repr i u) k = true ->
+  lex_step skip (s ++ k) = ([FTok (TDimension p0 repr (repr_is_int repr) u)], k).
+Proof. exact lex_dimension. Qed.
+Print Assumptions C20_dimension_roundtrip.
+
+Theorem C20_unicode_range_roundtrip : forall skip p a b s k,
+  a <? pow16_6 = true -> b <? pow16_6 = true ->
+  ser_token (TUnicodeRange p a b) = Ok s -> follow_ok (TUnicodeRange p a b) k = true ->
+  lex_step skip (s ++ k) = ([FTok (TUnicodeRange p0 a b)], k).
+Proof. exact lex_urange. Qed.
+Print Assumptions C20_unicode_range_roundtrip.
+
+(* blocks and functions: building the flattened tree gives back the tree *)
+Theorem C20_block_roundtrip : forall ts, norm (build [] [] (fl ts)) = norm ts.
+Proof. exact build_fl_norm. Qed.
+Print Assumptions C20_block_roundtrip.
+
+(* ------------------------------------------------------------------ the hypotheses are inhabited: the probe inputs of DESIGN section 6 *)
+(* dimension 1 with unit "e5" (source 1\65 5); url with U+0001; unit "E-x";
+   ident "1a"; "-" "-"; ident "u" "+" ident "a" *)
+Definition ex_tokens : list token :=
+  [TDimension p0 [49] true [101; 53]; TWhitespace p0 [32]; TURL p0 [1] false; TWhitespace p0 [32];
+   TDimension p0 [49] true [69; 45; 120]; TWhitespace p0 [10]; TIdent p0 [49; 97];
+   TLiteral p0 [45]; TLiteral p0 [45]; TIdent p0 [117]; TLiteral p0 [43]; TIdent p0 [97];
+   TFunction p0 [117; 114; 108] [TString p0 [34; 92; 10] false; TParens p0 [TNumber p0 [49] true; TLiteral p0 [37]]]].
+
+Example C20_example_wf : wf_tokens ex_tokens = true.
+Proof. vm_compute. reflexivity. Qed.
+
+Example C20_example_roundtrip :
+  match serialize ex_tokens with
+  | Ok s => norm (tokenize true s) = norm ex_tokens
+  | _ => False
+  end.
+Proof. vm_compute. reflexivity. Qed.
